@@ -139,6 +139,8 @@ def r5_request_path_never_closes(ctx):
 
 
 def run(ctx):
+    from . import effects
+    effects.check_property(ctx, "C13")    # R13.E: no operation on shared protocol state outside the reviewed table
     body = co(ctx, "R13.1", CL + "create_stream")
     if body is not None:
         cfg, conds, o = ctx.cfg(body), ctx.conds(body), ctx.origins(body)
